@@ -24,7 +24,7 @@ COMPONENTS = {"real": ["torchphysics conditions, samplers, UserFunction"], "owne
 
 
 def budget(tier):
-    return {"cases": 3000 if tier == "quick" else 100000, "wall": 600 if tier == "quick" else 3300, "shrink": 60, "det_legs": 6}
+    return {"cases": 3000 if tier == "quick" else 100000, "wall": 600 if tier == "quick" else 3000, "shrink": 60, "det_legs": 6}
 
 
 def gen_case(seed, tier="quick"):
